@@ -1,14 +1,14 @@
 CONSTANT DocSeq <- D2
-CONSTANT MaxSeq = 6
-CONSTANT MaxSteps = 5
-CONSTANT MaxLens <- EnvMaxLens
+CONSTANT MaxSeq = 2
+CONSTANT MaxSteps = 6
+CONSTANT MaxLens = {1, 2}
 CONSTANT MinLens = {0}
 CONSTANT Lims = {0, 1}
 CONSTANT AOs = {FALSE}
-CONSTANT MaxPending = 1
-CONSTANT MaxInter = 2
-CONSTANT Acts <- CoreActs
-CONSTANT PurgeRace = FALSE
+CONSTANT MaxPending = 0
+CONSTANT MaxInter = 1
+CONSTANT Acts <- RaceActs
+CONSTANT PurgeRace = TRUE
 CONSTANT RecordReads = TRUE
 CONSTANT HitSteps = FALSE
 SPECIFICATION Spec
